@@ -87,11 +87,67 @@ def probe_consts(ctx):
     return kv
 
 
+PRIMS_PROBE = r'''
+#include <stdio.h>
+#include <stdarg.h>
+void log_msg (int priority, const char *format, ...) {}
+void log_err (int status, int priority, const char *format, ...) {}
+void log_errno (int status, int priority, const char *format, ...) {}
+#include "crypto.c"
+#include "md.c"
+#include "mac.c"
+#include "cipher.c"
+#include "zip.c"
+#include "strerror.c"
+int main(void){
+  int i;
+  printf ("C ZIP_MAGIC %lld\n", (long long) ZIP_MAGIC);
+  printf ("C ZIP_META_SIZE %lld\n", (long long) sizeof (zip_meta_t));
+  for (i = 0; i <= 18; i++) printf ("S %d %s\n", i, munge_strerror (i));
+  crypto_init (); md_init_subsystem (); cipher_init_subsystem ();
+  for (i = 0; i < 256; i++)
+    printf ("%d %d %d %d %d %d %d %d\n", i, mac_map_enum (i, NULL), mac_size (i),
+        cipher_map_enum (i, NULL), cipher_key_size (i), cipher_block_size (i), cipher_iv_size (i),
+        zip_is_valid_type (i));
+  return 0;
+}
+'''
+
+
+def probe_prims(ctx):
+    """Per-enum tables of the real primitives (OpenSSL/zlib/bzlib as configured in this tree)."""
+    out = run_probe(ctx, "prims", PRIMS_PROBE, libs=["-lcrypto", "-lz", "-lbz2"])
+    if out is None:
+        return None
+    rows = [[int(x) for x in l.split()] for l in out.strip().split("\n") if l and l[0].isdigit()]
+    if len(rows) != 256:
+        ctx.obligation("gen", "primitive tables probed for all 256 enum values", False, out[-400:])
+        return None
+    names = ["mac_map_enum", "mac_size", "cipher_map_enum", "cipher_key_size", "cipher_block_size", "cipher_iv_size",
+             "zip_is_valid_type"]
+    txt = ""
+    errs = []
+    for l in out.strip().split("\n"):
+        if l.startswith("C "):
+            _, k, v = l.split()
+            txt += "def %s : Int := %s\n" % (k, v)
+        elif l.startswith("S "):
+            errs.append(l.split(" ", 2)[2])
+    txt += "/-- `munge_strerror` for the error codes 0..18 -/\ndef strerrorTbl : List String := [%s]\n" % ", ".join('"%s"' % e for e in errs)
+    txt += "/-- per-enum answers of the real primitives, probed by calling them for every value 0..255 -/\n"
+    for j, nm in enumerate(names):
+        vals = [r[j + 1] for r in rows]
+        txt += "def tbl_%s : List Int := [%s]\n" % (nm, ", ".join(str(v) if v >= 0 else "(%d)" % v for v in vals))
+        txt += "def %s_real (x : Int) : Int := tbl_%s.getD x.toNat (-1)\n" % (nm, nm)
+    return txt
+
+
 def generate(ctx):
+    prims = probe_prims(ctx)
     kv = probe_consts(ctx)
     d = translate_kernels(ctx, "src/munged/dec.c", dec_specs())
     e = translate_kernels(ctx, "src/munged/enc.c", enc_specs())
-    ok = kv is not None and d is not None and e is not None
+    ok = kv is not None and d is not None and e is not None and prims is not None
     ctx.obligation("gen", "constants of munge.h / munge_defs.h / cred.h probed", kv is not None)
     if not ok:
         return False
@@ -105,6 +161,6 @@ def generate(ctx):
     body += "\n/-- order of the stage calls in `dec_process_msg` / `enc_process_msg` as listed to the translator -/\n"
     body += "def decStages : List String := [%s]\n" % ", ".join('"%s"' % s for s in DEC_STAGES)
     body += "def encStages : List String := [%s]\n\n" % ", ".join('"%s"' % s for s in ENC_STAGES)
-    body += d + "\n" + e + "\nend Munge.Gen.Dec\n"
+    body += d + "\n" + e + "\n" + prims + "\nend Munge.Gen.Dec\n"
     gen_write("Dec", body)
     return True
